@@ -411,6 +411,44 @@ def remoteProxyGet (configured : Str → Bool) (loc token : Str) : RemoteOutcome
     | [] => .status 400
     | h :: parts => remoteParts mac configured token parts [h] none
 
+/-- How `remoteClient.Get(locator)` ended (keepclient `getOrHead`, C03's ground), as far as
+`remoteProxy.Get` distinguishes it. -/
+inductive RemoteReply where
+  | data (body : Str)   -- a Keep service of the remote cluster answered 200 with this body
+  | notFound            -- `*keepclient.ErrNotFound`, permanent (the services answered 404, 403, 401 …)
+  | temporary           -- `*keepclient.ErrNotFound` with `Temporary()`: network error, 408, 429 or 5xx
+                        --   from a service on the last retry round
+  | otherError          -- any other error (size hint ≠ Content-Length, …)
+deriving Repr, DecidableEq
+
+/-- what the client of keepstore receives: status and, for block data, the body -/
+structure Response where
+  status : Nat
+  body : Option Str     -- `some b`: block data `b` was written; `none`: an error text
+deriving Repr, DecidableEq
+
+/-- the `switch err.(type)` at the end of `remoteProxy.Get` -/
+def remoteFinish : RemoteReply → Response
+  | .data b => ⟨200, some b⟩
+  | .notFound => ⟨404, none⟩
+  | .temporary => ⟨404, none⟩
+  | .otherError => ⟨502, none⟩
+
+/-- number of requests one Keep service of the remote cluster receives for one `remoteClient.Get`
+(`retries` = `KeepClient.Retries`): only a temporary failure is tried again -/
+def remoteRequests (retries : Nat) : RemoteReply → Nat
+  | .temporary => retries + 1
+  | _ => 1
+
+/-- The whole `+R` exit of `handleGET` without `X-Keep-Signature: local`. `remote r l t` is what the
+remote cluster `r` does with the forwarded locator `l` and salted token `t`; `localStore` is what
+the local volumes hold — deliberately an argument, see `C07_remote_never_local`. -/
+def remoteProxyServe (configured : Str → Bool) (loc token : Str)
+    (remote : Str → Str → Str → RemoteReply) (_localStore : Str → Option Str) : Response :=
+  match remoteProxyGet mac configured loc token with
+  | .status c => ⟨c, none⟩
+  | .forward r l t => remoteFinish (remote r l t)
+
 /-- decimal (`%d`) of a size -/
 def natDec (n : Nat) : Str := Nat.toDigits 10 n
 
